@@ -40,7 +40,7 @@ func uncheckedSinks(start *ssa.BasicBlock, startIdx int, barrier func(ssa.Instru
 }
 
 func checkC18(c *Ctx) {
-	c.explainf("C18 decides: in the package path walker every hop that yields or assigns a value that is not itself a package is preceded, on every path from the symbol lookup, by the privacy test of that hop's name; the walker hands the hash walker the package it came through, and the hash walker, when given a package, applies the same test before every member it yields or assigns; the privacy test is an error exactly when the first rune of the dot-stripped name is not upper case; the unbounded scope walk used on packages is called only from the frozen set of callers. It does not decide behaviour per program or printing of package values.")
+	c.explainf("C18 decides: in the package path walker every hop that yields or assigns a value that is not itself a package is preceded, on every path from the symbol lookup, by the privacy test of that hop's name; the walker hands the hash walker the package it came through, and the hash walker, when given a package, applies the same test before every member it yields or assigns; the privacy test is an error exactly when the first rune of the dot-stripped name is not upper case; the unbounded scope walk used on packages is called only from the frozen set of callers. The captured scopes searched for a dot path handed to a builtin are those of the calling compiled function (C18-LEXFN). It does not decide behaviour per program or printing of package values.")
 	// a package function that hands a dot path to a builtin must have it resolved among the package's members
 	c.checkLexicalFunc("C18-LEXFN")
 	walker := c.mustFn("C18-WALK", "Stack.nestedPathGetSet")
